@@ -332,6 +332,9 @@ def project_subset_config(h, mesh, spec, cells, free=None):
             for k, i in enumerate(I):
                 h.zero('condensed projection equation of kept DOF %d holds at the coefficients of u_h' % i, res[k])
         else:
+            I = np.asarray(basis.get_dofs(elements=sel).flatten())        # the index set project() hands to condense
+            h.concrete('kept set == DOFs of the selected cells', sorted(int(i) for i in I) == own,
+                       'extra %s missing %s' % (sorted(set(I.tolist()) - set(own))[:6], sorted(set(own) - set(I.tolist()))[:6]))
             y = np.asarray(basis.project(uh), dtype=float)
             h.concrete('projection is finite', bool(np.isfinite(y).all()))
             for i in range(N):
